@@ -16,6 +16,7 @@ import (
 	"unsafe"
 
 	"github.com/cockroachdb/redact"
+	ri "github.com/cockroachdb/redact/interfaces"
 )
 
 // Val is a value spec. Unsafe leaves carry two contents (S/T, I/J, F/G)
@@ -370,6 +371,26 @@ func (b *builder) build1(v *Val) interface{} {
 		return RegStruct{A: v.str(in), B: int(v.int(in))}
 	case "regstringer":
 		return RegStringer(v.str(in))
+	case "regslice":
+		if v.int(in) == 0 {
+			return RegSlice(nil)
+		}
+		return RegSlice{int(v.int(in)), 2}
+	case "SafeBytes":
+		if v.S == nil || len(v.S) == 0 {
+			return ri.SafeBytes(nil)
+		}
+		return ri.SafeBytes(v.bytes(in))
+	case "svslice":
+		if len(v.S) == 0 {
+			return SVSlice(nil)
+		}
+		return SVSlice{v.str(in), "x"}
+	case "svmap":
+		if v.int(in) == 0 {
+			return SVMap(nil)
+		}
+		return SVMap{"k": int(v.int(in))}
 
 	// ---- redact-specific
 	case "SafeString":
